@@ -56,6 +56,9 @@ impl Scenario for Co {
     fn ticks_enabled(&self) -> bool {
         false
     }
+    fn retain_completed(&self) -> bool {
+        true
+    }
     fn init(&self, w: &mut World) -> X {
         let layer = CoalesceLayer::new(|r: &Req| r.key);
         let svc = layer.layer(GatedInner::new(w.inner.clone()));
@@ -63,13 +66,11 @@ impl Scenario for Co {
             let mut s = svc.clone();
             drive_ready::<_, Req>(&mut s, 4).expect("ready").ok();
             let f = s.call(req);
-            Box::pin(async move {
-                match f.await {
-                    Ok(r) => Outcome::Ok(r),
-                    Err(CoalesceError::Service(e)) => Outcome::Inner(e),
-                    Err(CoalesceError::LeaderCancelled) => Outcome::Layer("LeaderCancelled".into()),
-                    Err(CoalesceError::RecvError) => Outcome::Layer("RecvError".into()),
-                }
+            trv_core::world::keep(f, |r| match r {
+                Ok(r) => Outcome::Ok(r),
+                Err(CoalesceError::Service(e)) => Outcome::Inner(e),
+                Err(CoalesceError::LeaderCancelled) => Outcome::Layer("LeaderCancelled".into()),
+                Err(CoalesceError::RecvError) => Outcome::Layer("RecvError".into()),
             })
         });
         X { start, roles: vec![None; 16], pre_leader_status: None, saw_cancelled: false, saw_shared_ok: false, saw_shared_err: false }
@@ -208,9 +209,11 @@ impl Scenario for Co {
             v.push("waiter_shared_error_result");
         }
         if let Some(Action::Drop(c)) = h.last() {
+            let done = matches!(w.callers[*c as usize].phase, Phase::Done(_));
             match &x.roles[*c as usize] {
+                Some(Role::Leader(_)) if done => v.push("completed_leader_future_dropped_late"),
                 Some(Role::Leader(_)) => v.push("leader_dropped"),
-                Some(Role::Waiter(_)) => v.push("waiter_dropped"),
+                Some(Role::Waiter(_)) if !done => v.push("waiter_dropped"),
                 _ => {}
             }
         }
@@ -254,6 +257,11 @@ impl Scenario for Co {
         let mut v = vec![];
         self.after(w, x, &Action::Tick, &mut v);
         out.extend(v);
+        for c in 0..w.callers.len() {
+            if w.has_retained(c) {
+                w.release_done(c);
+            }
+        }
         // every key is usable again: a fresh request starts a fresh inner call at once
         let mut fresh = vec![];
         for key in 0..self.keys {
@@ -274,7 +282,7 @@ impl Scenario for Co {
 }
 
 fn configs(tier: Tier) -> Vec<Co> {
-    vec![Co { callers: tier.pick(3, 4), keys: 2, max_drops: tier.pick(2, 2), max_panics: 1 }]
+    vec![Co { callers: tier.pick(3, 4), keys: 2, max_drops: tier.pick(2, 3), max_panics: 1 }]
 }
 
 fn main() {
@@ -293,7 +301,7 @@ fn main() {
     let mut rep = Report::new("C11", tier, "model_checking");
     rep.rule = "BFS over action histories {Arrive(key A|B),Poll,Drop,Complete(ok|err|panic)} of the real CoalesceService with 3-4 callers on clones; leaders and waiters dropped at every point; every state also drained (all gates opened, two polls each) and every key probed with a fresh request".into();
     rep.assumptions = vec!["interleaving granularity is one Future::poll (shared state is a parking_lot mutex + a broadcast channel)".into()];
-    for w in ["waiter_saw_leader_cancelled", "waiter_shared_ok_result", "waiter_shared_error_result", "leader_dropped", "waiter_dropped", "leader_panicked", "two_waiters_on_one_leader", "fresh_call_after_previous_one_ended"] {
+    for w in ["completed_leader_future_dropped_late", "waiter_saw_leader_cancelled", "waiter_shared_ok_result", "waiter_shared_error_result", "leader_dropped", "waiter_dropped", "leader_panicked", "two_waiters_on_one_leader", "fresh_call_after_previous_one_ended"] {
         rep.require_witness(w);
     }
     let depth = tier.pick(10, 13);
